@@ -61,6 +61,8 @@ impl FullnameInfo {
 pub(crate) struct FullnameSerializer<'a> {
     xot: &'a Xot,
     stack: Vec<FullnameInfo>,
+    // per open element: whether it has its own entry on the stack
+    pushed: Vec<bool>,
 }
 
 impl<'a> FullnameSerializer<'a> {
@@ -70,6 +72,7 @@ impl<'a> FullnameSerializer<'a> {
             stack: vec![FullnameInfo {
                 all_namespaces: defined_namespaces,
             }],
+            pushed: Vec::new(),
         }
     }
 
@@ -78,11 +81,13 @@ impl<'a> FullnameSerializer<'a> {
         // already have the same namespaces. the cost is that we need
         // to keep track of whether this node defined namespaces for pop as well.
         if defined_namespaces.is_empty() {
+            self.pushed.push(false);
             return;
         }
         let current_fullname_info = self.stack.last().unwrap();
         self.stack
             .push(FullnameInfo::new(defined_namespaces, current_fullname_info));
+        self.pushed.push(true);
     }
 
     pub(crate) fn has_empty_prefix(&self, namespace_id: NamespaceId) -> bool {
@@ -112,13 +117,27 @@ impl<'a> FullnameSerializer<'a> {
     // this is handy for the HTML rendering system, which insists some namespaces
     // should be in the empty prefix (xhtml, mathml, svg)
     pub(crate) fn add_empty_prefix(&mut self, namespace_id: NamespaceId) {
-        let current_fullname_info = self.stack.last_mut().unwrap();
-        let empty_entry = (self.xot.empty_prefix(), namespace_id);
-        current_fullname_info.all_namespaces.push(empty_entry);
+        // the binding belongs to the element that is currently open; give it
+        // its own entry if it shares the one of its parent, otherwise the
+        // binding would stay in scope for the following siblings
+        let empty_entry = vec![(self.xot.empty_prefix(), namespace_id)];
+        let current_fullname_info = self.stack.last().unwrap();
+        let fullname_info = FullnameInfo::new(empty_entry, current_fullname_info);
+        match self.pushed.last_mut() {
+            Some(pushed) if !*pushed => {
+                *pushed = true;
+                self.stack.push(fullname_info);
+            }
+            _ => {
+                *self.stack.last_mut().unwrap() = fullname_info;
+            }
+        }
     }
 
     pub(crate) fn pop(&mut self, has_namespaces: bool) {
-        if has_namespaces {
+        // what was pushed for this element decides; the argument is the
+        // fallback for a pop without a recorded push
+        if self.pushed.pop().unwrap_or(has_namespaces) {
             self.stack.pop();
         }
     }
